@@ -1,5 +1,5 @@
-\* quick, exhaustive safety (defaults): 2 documents, 2 writers, 3 reservations, CachePendingSeqMaxNum 1, one-shot resume client,
-\* every feed behaviour (reorder, one redelivery, coalescing), failing and dying writers, timed abandonment.  Variants by environment (MC_Pipeline.tla).
+\* liveness under fairness of feed delivery, the cache timers, writers finishing and clients asking (FairSpec).
+\* No VIEW, no history, no step bound, no state constraint: boundedness comes from the guards on the counter and the redelivery budget.
 CONSTANT Docs <- EDocs
 CONSTANT Writers <- EWriters
 CONSTANT Base <- EBase
@@ -18,12 +18,10 @@ CONSTANT MaxSeq <- EMaxSeq
 CONSTANT MaxNum <- EMaxNum
 CONSTANT MaxSteps = 0
 CONSTANT RecordHist = FALSE
-SPECIFICATION Spec
-VIEW view
-INVARIANT ResumeSafe
-INVARIANT FeedSound
-INVARIANT OrderedPerResponse
-INVARIANT LedgerAccounted
-INVARIANT QuietAccounted
+SPECIFICATION FairSpec
 INVARIANT TypeOK
+PROPERTY NoStall
+PROPERTY EachAccounted
+PROPERTY FeedAnnouncesFinal
+PROPERTY NoLostChange
 CHECK_DEADLOCK FALSE
